@@ -13,7 +13,7 @@ class LinearPaths:
       segment_name = segment.name
     else:
       segment_name = segment
-      segment = self.segment(segment_name)
+      segment = self.try_get_segment(segment_name)
     cs = segment._connectivity()
     if exclude is None:
       exclude = set()
